@@ -15,6 +15,15 @@ closes after receiving, unparsable frame, undecodable packet, refusing, black-ho
 TLC validates every run against Trace_ClientMux with the clock driven by the recorded times: TDeadline is DeadlineInv
 with the dial timeout of the run + 500 ms slack + 5 %; the counters read through test-only exports after quiescence
 are accepted as observed and judged by NoResidue.  A deadline overrun is re-run three times before it is reported.
+Non-interference in time ("a reply that arrives later is discarded without affecting any other call"): ReplyInTime in the
+model (MC_c09_ideal, MC_c09_dup; MC_c09_kf_inline -- the connection's reader running the receiver itself -- must violate
+it), TimelyReply on the runs: no call may end with a timeout behind a stray packet (duplicate, late, foreign, push) although
+the peer wrote its reply 250 ms before its deadline on a connection that stayed open (class 'hol': read timeout 600-800 ms,
+duplicated replies, other callers' replies right behind); reproduced three times before it is reported.
+Boundary configurations (own processes, a process stops at its first hung call): ClientReadTimeout = 0 (MC_c09_read0: the
+code as it is offers nothing, every answered call ends by its deadline), ClientWriteTimeout = 0, dial timeout 1 ms,
+ObjQueueMax 0 / 1, deadlines below 1 ms; in each the same goroutine calls again after its first call returned.
+Transparent client filters (pre, post, legacy, middleware; one process each) over silent / late / closing / refusing peers.
 """
 import json
 
@@ -24,9 +33,12 @@ from checks import c08 as mux
 from lib import gobuild
 from lib.core import Inconclusive, sh
 
-C09_INV = ["NoResidue", "TDeadline", "AcctQueue", "AcctMgr", "AcctResp"]
+C09_INV = ["NoResidue", "TDeadline", "AcctQueue", "AcctMgr", "AcctResp", "TimelyReply"]
 C09_CLASSES = ["never", "late", "mixed", "dup", "close", "badframe", "garbage", "refuse", "blackhole1", "blackholeK", "queuefull",
-               "inorder", "giveup"]
+               "inorder", "giveup", "hol"]
+EDGE_CLASSES = ["edge-read0", "edge-write0", "edge-dial1", "edge-qmax0", "edge-qmax1", "edge-subms"]
+FILTER_CLASSES = ["never", "late", "close", "refuse", "inorder"]
+TIMED = {"TDeadline", "TimelyReply"}      # verdicts that depend on recorded times: reported only if reproduced three times
 # connection.invokeNum (transport) is one of "the in-flight counters": a value other than 0 after quiescence is reported.
 TRANSPORT_INVOKENUM_IS_RESIDUE = True
 F21 = "C09:deadline-overrun:concurrent-callers-dial-blackhole"
@@ -46,6 +58,46 @@ def shift_after(t, c, ms):
     return out
 
 
+def timeout_behind_stray(traces):
+    """A recorded run in which a caller that was answered at once (behind a duplicate of somebody else's reply) is made to end
+    with a timeout at its deadline instead; None if no run lends itself to it."""
+    for t in traces:
+        cfg = t[0]
+        if cfg["cls"] != "hol" or t[-1]["e"] != "Quiesce":
+            continue
+        sends = [e for e in t if e["e"] == "PeerSend"]
+        first_dup = next((e["q"] for i, e in enumerate(sends) if any(x["id"] == e["id"] for x in sends[:i])), None)
+        if first_dup is None:
+            continue
+        for end in [e for e in t if e["e"] == "CallEnd" and e["k"] == "reply" and e["p"] > first_dup]:
+            c, q = end["c"], end["p"]
+            ps = [e for e in sends if e["q"] == q][0]
+            t0 = [e["t"] for e in t if e["e"] == "CallStart" and e["c"] == c][0]
+            dl = t0 + cfg["to"][c - 1]
+            if ps["t"] + 250 > dl or sum(1 for e in sends if e["id"] == ps["id"]) != 1:
+                continue
+            mine = lambda e: e.get("c") == c and e["e"] in ("UnregBegin", "Unregistered", "CallEnd")
+            moved = []
+            for e in t:
+                if mine(e):
+                    e = dict(e, t=max(e["t"], dl))
+                    if e["e"] == "UnregBegin":
+                        e.update(k="timeout", p=0)
+                    if e["e"] == "CallEnd":
+                        e.update(k="timeout", p=0, rid=0, tag=0, ms=max(e["ms"], cfg["to"][c - 1]))
+                    moved.append(e)
+            rest = [e for e in t[:-1] if not mine(e) and not (e["e"] == "RecvDelivered" and e["q"] == q)]
+            out, k = [], 0
+            for e in rest:
+                while k < len(moved) and moved[k]["t"] < e.get("t", 0):
+                    out.append(moved[k])
+                    k += 1
+                out.append(e)
+            out += moved[k:]
+            return out + [dict(t[-1], t=max(t[-1]["t"], dl))]
+    return None
+
+
 def selftests_c09(ctx, traces):
     base = None
     for t in traces:
@@ -55,7 +107,14 @@ def selftests_c09(ctx, traces):
     if base is None:
         raise Inconclusive("no trace suitable for the binding self-test")
     c = [e for e in base if e["e"] == "Unregistered"][0]["c"]
+    extra = {}
+    held = timeout_behind_stray(traces)
+    if held is not None:
+        extra["answered-call-times-out-behind-a-duplicate"] = (held, "TimelyReply")
+    elif any(t[0]["cls"] == "hol" for t in traces):
+        raise Inconclusive("no 'hol' run lends itself to the TimelyReply self-test")
     return mux.require_all_rejected(ctx, C09_INV, {
+        **extra,
         "unregistered-event-dropped": ([e for e in base if not (e["e"] == "Unregistered" and e["c"] == c)], None),
         "queueLen-1-at-quiescence": (base[:-1] + [dict(base[-1], ql=1)], "NoResidue"),
         "pending-entry-at-quiescence": (base[:-1] + [dict(base[-1], pend=1)], "NoResidue"),
@@ -74,18 +133,26 @@ def run(ctx):
         "quiescence = every call returned, the peer finished its script, every receiver goroutine finished (waited for, not assumed)",
     ]
     quick = ctx.quick
-    clean = ["c09_ideal", "residue", "transport_polite"] if quick else ["c09_ideal_t", "residue_t", "residue", "transport_polite"]
-    kf = {"c09_kf_serialdial": "DeadlineInv", "transport_kf": "TransportBack"}
-    with ThreadPoolExecutor(max_workers=5) as mcex:
-        futs = mux.start_mc(ctx, mcex, clean + list(kf), workers=ctx.pick(3, 4), timeout=ctx.pick(300, 840))
+    clean = (["c09_ideal", "residue", "transport_polite", "c09_read0", "c09_dup"] if quick else
+             ["c09_ideal_t", "residue_t", "residue", "transport_polite", "c09_read0", "c09_read0_t", "c09_dup", "c09_dup_t"])
+    kf = {"c09_kf_serialdial": "DeadlineInv", "transport_kf": "TransportBack", "c09_kf_inline": "ReplyInTime"}
+    with ThreadPoolExecutor(max_workers=4) as mcex:
+        futs = mux.start_mc(ctx, mcex, clean + list(kf), workers=ctx.pick(2, 4), timeout=ctx.pick(300, 840))
         exe = gobuild.build(ctx, "muxdrive")
         rc, so, se = sh([exe, "probe"], timeout=60)
         blackhole = "blackhole: ok" in so
         classes = [c for c in C09_CLASSES if blackhole or not c.startswith("blackhole")]
         per, maxk, shards = ctx.pick(5, 30), ctx.pick(32, 128), ctx.pick(8, 10)
         ctx.log("harness built; blackhole available: %s" % blackhole)
-        traces, hits = mux.drive(ctx, exe, classes, per, maxk, shards, "c09")
-        ctx.log("%d runs recorded" % len(traces))
+        with ThreadPoolExecutor(max_workers=3) as dex:
+            fe = dex.submit(mux.drive, ctx, exe, EDGE_CLASSES, ctx.pick(2, 10), 8, ctx.pick(3, 6), "c09edge", False, None, True, 200000)
+            ff = dex.submit(mux.drive, ctx, exe, FILTER_CLASSES, ctx.pick(1, 4), 8, 1, "c09flt", False, mux.FILTERS, False, 100000)
+            traces, hits = mux.drive(ctx, exe, classes, per, maxk, shards, "c09")
+            etraces, _ = fe.result()
+            ftraces, fhits = ff.result()
+        traces += etraces + ftraces
+        hits.update({k: v for k, v in fhits.items() if k.startswith("filter:")})
+        ctx.log("%d runs recorded (%d in boundary configurations, %d with a client filter)" % (len(traces), len(etraces), len(ftraces)))
         bh = [t for t in traces if t[0]["cls"] == "blackholeK"]
         rest = [t for t in traces if t[0]["cls"] != "blackholeK"]
         with ThreadPoolExecutor(max_workers=2) as ex:
@@ -95,6 +162,7 @@ def run(ctx):
             fb, stb, tinvb = f2.result()
         failures += fb
         tinv.update(tinvb)
+        early = dict(st["early"], **stb["early"])
         ctx.log("traces validated: %d rejected" % len(failures))
         bad = {id(t) for t, _ in failures}
         selftest = selftests_c09(ctx, [t for t in traces if id(t) not in bad])
@@ -104,12 +172,15 @@ def run(ctx):
     overruns = {}
     for t, f in failures:
         cfg = t[0]
-        cls, inv = cfg["cls"], (f["invariant"][0] if f["invariant"] else None)
+        cls, inv = mux.cls_of(t), (f["invariant"][0] if f["invariant"] else None)
         if inv == "TDeadline":
             sig = F21 if (cls == "blackholeK" and cfg["k"] > 1) else "C09:deadline-overrun:%s" % cls
             if f["event"].get("e") == "Hung":
                 sig = "C09:call-never-returned:%s" % cls
             overruns.setdefault(sig, []).append((t, f))
+            continue
+        if inv == "TimelyReply":
+            overruns.setdefault("C09:stray-reply-holds-up-other-calls:%s" % cls, []).append((t, f))
             continue
         q = t[-1]
         if inv == "NoResidue":
@@ -138,10 +209,11 @@ def run(ctx):
     for sig, lst in overruns.items():
         t, f = lst[0]
         idx = t[0]["sc"]
+        inv = f["invariant"][0]
         with ThreadPoolExecutor(max_workers=3) as ex:
-            again = list(ex.map(lambda i: mux.rerun(ctx, exe, classes, per, maxk, idx, "c09-%d" % i), range(3)))
+            again = list(ex.map(lambda i: mux.rerun_trace(ctx, exe, t, "c09-%d" % i), range(3)))
         fa, _, _ = mux.validate(ctx, again, C09_INV, "c09rr", 1, 600, True)
-        rej = sum(1 for _, f2 in fa if f2["invariant"] and f2["invariant"][0] == "TDeadline")
+        rej = sum(1 for _, f2 in fa if f2["invariant"] and f2["invariant"][0] == inv)
         worst = [max([e["ms"] for e in a if e["e"] == "CallEnd"] or [0]) for a in again]
         rerun_log[sig] = {"scenario": idx, "reproduced": rej, "of": 3, "slowest_call_ms": worst}
         if rej == 3:
@@ -151,8 +223,24 @@ def run(ctx):
                     "dial timeout + 500 ms + 5 %%" % (cfg["k"], sorted(set(cfg["to"])), cfg["dial"], cfg["listen"], [e[0] for e in ends]))
             hung = [e["c"] for e in t if e["e"] == "Hung"]
             if hung:
-                what = "callers %s of %d (effective deadlines %s ms, peer class '%s') had not returned %d ms after the run began" % (
-                    hung, cfg["k"], sorted(set(cfg["to"])), cfg["cls"], t[-1]["t"])
+                what = ("callers %s of %d (effective deadlines %s ms, peer class '%s', ClientReadTimeout %d ms, ClientWriteTimeout %d ms, dial "
+                        "timeout %d ms, ObjQueueMax %d) had not returned %d ms after the run began" % (
+                            hung, cfg["k"], sorted(set(cfg["to"])), mux.cls_of(t), cfg["rt"], cfg.get("wt", 3000), cfg["dial"], cfg["qmax"],
+                            t[-1]["t"]))
+            if inv == "TimelyReply":
+                # the state that violates the invariant follows the UnregBegin{timeout} before the reported position
+                uev = next(e for e in reversed(t[:f["offset"] + 1]) if e["e"] == "UnregBegin" and e["k"] == "timeout")
+                c = uev["c"]
+                t0 = [e["t"] for e in t if e["e"] == "CallStart" and e["c"] == c][0]
+                rid = uev["id"]
+                sent = [e for e in t if e["e"] == "PeerSend" and e["id"] == rid and e["tag"] == c]
+                got = [e["t"] for e in t if e["e"] == "NetRecv" and sent and e["q"] == sent[0]["q"]]
+                nto = sum(1 for e in t if e["e"] == "CallEnd" and e["k"] == "timeout")
+                what = ("caller %d of %d (deadline %d ms after its start at %d ms; ClientReadTimeout %d ms) ended with a timeout at %d ms although "
+                        "the peer wrote the reply carrying its id at %d ms on a connection that stayed open; the client's read loop handed that "
+                        "packet over at %s ms, behind a duplicate / late / foreign packet written earlier; %d calls of the run timed out" % (
+                            c, cfg["k"], cfg["to"][c - 1], t0, cfg["rt"], uev["t"], sent[0]["t"] if sent else -1,
+                            got[0] if got else "no time before the end of the run:", nto))
             d = mux.describe(t, f)
             d["runs_with_this_signature"] = len(lst)
             ctx.violate(sig, what, d)
@@ -202,6 +290,11 @@ def run(ctx):
                 outcomes[key] = outcomes.get(key, 0) + 1
                 slow = max(slow, e["ms"] - t[0]["to"][e["c"] - 1])
     sample = next((t for t in traces if t[0]["cls"] == "never" and t[0]["k"] <= 3), traces[0])
+    if early:
+        ctx.notes.append("calls that ended with a timeout although the peer had written their reply 250 ms before the deadline -- on a "
+                         "connection that was closed meanwhile, or with ClientReadTimeout = 0 (the code as it is offers nothing then), or with no "
+                         "stray packet ahead of the reply (statement silent): %d calls in scenarios %s"
+                         % (sum(n - h for n, h in early.values()), sorted(early)[:10]))
     ctx.coverage = {
         "states": sum(v.get("distinct", 0) for v in mc.values()) + st["states"] + stb["states"],
         "transitions": sum(v.get("generated", 0) for v in mc.values()) + st["transitions"] + stb["transitions"],
@@ -209,8 +302,15 @@ def run(ctx):
         "samples": [sample[:60]],
         "evaluations": ncalls, "distinct_nontrivial": len({json.dumps([(e["e"], e.get("c"), e.get("q"), e.get("k")) for e in t]) for t in traces}),
         "rule": "runs: %d scenarios of classes %s, 1..%d callers on one proxy, timeouts 50-300 ms (configured / per call / context deadline "
-                "shorter and longer); evaluations = calls judged against their deadline and for residue; distinct = distinct event orders"
-                % (len(traces), classes, maxk),
+                "shorter and longer); %d runs in boundary configurations %s (ClientReadTimeout 0, ClientWriteTimeout 0, dial timeout 1 ms, "
+                "ObjQueueMax 0/1, deadlines of 0.3 and 1 ms; the same goroutine calls again afterwards); %d runs with a transparent client "
+                "filter (%s) over %s; evaluations = calls judged against their deadline, for residue and for replies held up by stray "
+                "packets; distinct = distinct event orders"
+                % (len(traces), classes, maxk, len(etraces), EDGE_CLASSES, len(ftraces), mux.FILTERS, FILTER_CLASSES),
+        "observations": {"timeouts_although_answered_250ms_early": {str(k): {"calls": v[0], "behind_a_stray_packet": v[1]} for k, v in
+                                                                     sorted(early.items())[:20]},
+                         "read_timeout_0_runs": sum(1 for t in etraces if t[0]["rt"] == 0)},
+        "stray_packets_ahead_of_a_timely_reply_runs": sum(1 for t in traces if t[0]["cls"] == "hol"),
         "model_checking": mc, "call_outcomes": outcomes, "largest_excess_over_deadline_ms": slow,
         "blackhole_available": blackhole, "deadline_overrun_reruns": rerun_log,
         "transport_invokeNum_nonzero_runs": {k: len(v) for k, v in tres.items()},
